@@ -21,8 +21,9 @@ def cmLine {L} (showL : L → String) (r : Option (List L × List (List Nat))) :
     let ova := splitOneVsAll m
     let ovo := splitOneVsOne m
     let half : Float32 := 0.5
+    let two : Float32 := 2
     s!"ok members={showList showL cs} cells={showCells m} acc={sh32 (accuracy m)} " ++
-    s!"prec={sh32 (precision m)} rec={sh32 (recall m)} f1={sh32 (fScore 1 m)} fh={sh32 (fScore half m)} " ++
+    s!"prec={sh32 (precision m)} rec={sh32 (recall m)} f1={sh32 (fScore 1 m)} fh={sh32 (fScore half m)} f2={sh32 (fScore two m)} " ++
     s!"mcc={sh32 (mcc m)} ova={showList3 toString ova} ovo={showList3 toString ovo} " ++
     s!"ovap={showList (fun s => sh32 (precision s)) ova} ovar={showList (fun s => sh32 (recall s)) ova} " ++
     s!"ovaf={showList (fun s => sh32 (fScore 1 s)) ova}"
@@ -45,18 +46,21 @@ def parseBools (toks : List String) (key : String) : Option (List Bool) := do
   let ns ← argNats toks key
   ns.mapM fun n => if n = 0 then some false else if n = 1 then some true else none
 
-def handleRoc (toks : List String) : Option String := do
+/-- `strict`: the op `roc` is only issued with equally long vectors; the calling-form op `rocf` also
+sends unequal lengths, on which the code's `zip` silently truncates (as `List.zip` does) -/
+def handleRoc (strict : Bool) (toks : List String) : Option String := do
   let s ← (arg toks "s").bind (parseList parseF32)
   let y ← parseBools toks "y"
-  if s.length ≠ y.length then none
+  if strict && s.length ≠ y.length then none
   let samples := s.zip y
   let (curve, thr) := roc eps32 none samples
   some s!"ok curve={showList2 sh32 (curve.map fun p => [p.1, p.2])} thr={showList sh32 thr} auc={sh32 (trapezoid curve)}"
 
+/-- unequal lengths: `assert_eq!(self.len(), y.len())` panics, before the emptiness test -/
 def handleLogLoss (toks : List String) : Option String := do
   let s ← (arg toks "s").bind (parseList parseF32)
   let y ← parseBools toks "y"
-  if s.length ≠ y.length then none
+  if s.length ≠ y.length then some "panic" else
   match logLoss f32Epsilon s y with
   | none => some "err NotEnoughSamples"
   | some v => some s!"ok {tl32 v}"
@@ -76,13 +80,12 @@ def showOpt {α} (f : α → String) : Option α → String
   | none => "none"
   | some x => f x
 
-/-- `exact`: plain bit patterns, `msle` (libm) left out, `mape` (inexact terms summed by ndarray's
-unrolled `sum`) as a `~` token; otherwise all `~` tokens -/
+/-- `exact`: plain bit patterns, except `mape` and `msle` (inexact terms — quotients, libm `ln` —
+summed by ndarray's unrolled `sum`) as `~` tokens; otherwise all `~` tokens -/
 def regLine {α} (exact : Bool) (ex tl : α → String) (cols : List (List (String × Option α))) : String :=
   let names := ["max", "mae", "mse", "med", "mape", "r2", "ev", "msle"]
-  let names := if exact then names.filter (· != "msle") else names
   "ok " ++ " ".intercalate (names.map fun nm =>
-    nm ++ "=" ++ showList (fun c => showOpt (if exact && nm != "mape" then ex else tl) ((c.lookup nm).getD none)) cols)
+    nm ++ "=" ++ showList (fun c => showOpt (if exact && nm != "mape" && nm != "msle" then ex else tl) ((c.lookup nm).getD none)) cols)
 
 def transpose {β} (rows : List (List β)) (p : Nat) : List (List β) :=
   (List.range p).map fun j => rows.filterMap fun r => r[j]?
@@ -100,27 +103,49 @@ def handleReg (exact : Bool) (toks : List String) : Option String := do
     some (regLine exact sh32 tl32 ((ca.zip cb).map fun (x, y) => regScores (1e-10 : Float32) (f x) (f y)))
   else none
 
-def sqDist (x y : List Float) : Float := sumS (List.zipWith (fun a b => (a - b) * (a - b)) x y)
+def sqDist {α} [Add α] [Sub α] [Mul α] [OfNat α 0] (x y : List α) : α :=
+  sumS (List.zipWith (fun a b => (a - b) * (a - b)) x y)
 
-def handleSil (toks : List String) : Option String := do
+/-- `w = 32`: the records are `f32` (the request carries values that are exact in f32) -/
+def handleSil (w : Nat) (toks : List String) : Option String := do
   let x ← argF64s2 toks "x"; let l ← argNats toks "l"
   if x.length ≠ l.length then none
-  let d := x.map fun xi => x.map fun xj => Float.sqrt (sqDist xi xj)
-  some s!"ok {tl64 (silhouette d l)}"
+  if w = 32 then
+    let x := x.map fun r => r.map Float.toFloat32
+    let d := x.map fun xi => x.map fun xj => Float32.sqrt (sqDist xi xj)
+    some s!"ok {tl32 (silhouette d l)}"
+  else
+    let d := x.map fun xi => x.map fun xj => Float.sqrt (sqDist xi xj)
+    some s!"ok {tl64 (silhouette d l)}"
 
-def handlePearson (toks : List String) : Option String := do
+def handlePearson (w : Nat) (toks : List String) : Option String := do
   let x ← argF64s2 toks "x"; let p ← argNat toks "p"
-  some s!"ok {showList tl64 (pearson x p)}"
+  if w = 32 then
+    some s!"ok {showList tl32 (pearson (x.map fun r => r.map Float.toFloat32) p)}"
+  else
+    some s!"ok {showList tl64 (pearson x p)}"
+
+/-- calling-form ops carry `form=k`; every form has the model of the plain op -/
+def withForm (rest : List String) (f : List String → Option String) : Option String :=
+  (argNat rest "form").bind fun _ => f rest
 
 def handle (toks : List String) : String :=
   let r := match toks with
     | "cm" :: rest => handleCm rest
-    | "roc" :: rest => handleRoc rest
+    | "cmf" :: rest => withForm rest handleCm
+    | "roc" :: rest => handleRoc true rest
+    | "rocf" :: rest => withForm rest (handleRoc false)
     | "logloss" :: rest => handleLogLoss rest
+    | "loglossf" :: rest => withForm rest handleLogLoss
     | "reg" :: rest => handleReg true rest
     | "regt" :: rest => handleReg false rest
-    | "sil" :: rest => handleSil rest
-    | "pearson" :: rest => handlePearson rest
+    | "regf" :: rest => withForm rest (handleReg true)
+    | "regtf" :: rest => withForm rest (handleReg false)
+    | "sil" :: rest => handleSil 64 rest
+    | "sil32" :: rest => handleSil 32 rest
+    | "silf" :: rest => withForm rest (handleSil 64)
+    | "pearson" :: rest => handlePearson 64 rest
+    | "pearson32" :: rest => handlePearson 32 rest
     | _ => none
   r.getD "bad-op"
 
